@@ -126,7 +126,9 @@ class Attributes(Contract):
         return [('iteration-yields-rows', norm(it) == [np.asarray(r).tolist() for r in rows]), ('flatten', multi or norm(fl) == flat.flatten().tolist()),
                 ('lengths', list(ln) == lengths), ('starts', list(st) == list(np.concatenate([[0], np.cumsum(lengths)[:-1]]))),
                 ('size', multi or sz == len(flat)), ('dtype', dt == flat.dtype),
-                ('shape', tuple(sh)[0] == len(rows))]
+                ('shape', tuple(sh)[0] == len(rows)),
+                ('shape-second-dimension-is-the-common-row-length-or-None', (tuple(sh)[1] is None) if len(set(lengths)) > 1 else (tuple(sh)[1] is not None and int(tuple(sh)[1]) == lengths[0])),
+                ('shape-element-dimension', (len(tuple(sh)) == 2) if not multi else (len(tuple(sh)) == 3 and tuple(sh)[2] == np.asarray(rows[0]).shape[1]))]
 
 
 def read(R, rows, idx):
@@ -139,7 +141,7 @@ def attrs(R, rows):
 
 def arrays(rnd, tier):
     out = []
-    for lens in [(3, 2, 4), (2, 2), (1,), (4, 1, 3, 2), (3, 3, 3)]:
+    for lens in [(3, 2, 4), (2, 2), (1,), (4, 1, 3, 2), (3, 3, 3), (2, 1, 3), (3, 5, 1), (1, 2)]:
         k = 0
         rows = []
         for n in lens:
@@ -189,6 +191,8 @@ def cases_reads(L, tier, seed):
                 idxs.append((rs, cs))
         for cs in col_slices[::3]:
             idxs.append((0, cs)); idxs.append(([0, n - 1], cs)); idxs.append(([-1], cs))
+        for k in range(-mx - 1, mx + 1):          # a row slice with an integer / list column: out-of-row columns must raise, never read a neighbour
+            idxs += [(slice(None), k), (slice(None), [0, k]), (slice(0, n, 2), k), (slice(n - 1, n), [k])]
         idxs += [([0, n - 1], [0, 0]), ([n - 1, 0, 0], [0, 1 % len(rows[0]), 0]), ([0, 0], [-1, 0]), ([0, 0], [-len(rows[0]) - 1, 0]),
                  ([0, n - 1], 0), (slice(None), 0), (slice(None), [0]), (slice(0, 1), [0, len(rows[0]) - 1]), ([0], [len(rows[0])]), ([n], [0])]
         for idx in idxs:
@@ -341,7 +345,18 @@ def run_operators(kind, rows):
     nested = [r.copy() for r in rows]
     R4 = ra.RaggedArray(nested)
     R4[0, 0] = -77
-    res['copy-never-aliases'] = bool(np.array_equal(flat, keep)) and all(np.array_equal(a, b) for a, b in zip(nested, rows))
+    ok_block = True
+    if len(set(len(r) for r in rows)) == 1:
+        # rectangular input given as one contiguous 2-d block, and slices of an equal-length ragged array: still copies
+        blk = np.array([r for r in rows]); keepb = blk.copy()
+        R5 = ra.RaggedArray(blk); R5[0, 0] = -55
+        R6 = ra.RaggedArray(np.concatenate(rows).copy(), lengths=np.array([len(r) for r in rows]))
+        before6 = observe(R6)
+        S6 = R6[:]; S6[0, 0] = -66
+        S7 = R6[0:1]; S7[0, 0] = -67
+        T6 = R6 + 0; T6[0, 0] = -68
+        ok_block = bool(np.array_equal(blk, keepb)) and observe(R6) == before6
+    res['copy-never-aliases'] = bool(np.array_equal(flat, keep)) and all(np.array_equal(a, b) for a, b in zip(nested, rows)) and ok_block
     return res, before, after, None
 
 
@@ -364,7 +379,35 @@ def cases_writes(L, tier, seed):
             yield cH, run_history, dict(kind=kind, rows=rows, ops=list(ops)), ('history', kind, [r.tolist() for r in rows], [str(o) for o in ops])
 
 
+def cases_helpers(L, tier, seed):
+    """the index-arithmetic helpers under the same contracts the prover discharges (contracts/ra_index.py), concretely"""
+    from contracts import ra_index as RI
+    from enspara.ra import ra as ram
+    cv, hn, sl = RI.ConvertFrom2d(), RI.HandleNegative(), RI.SliceToList()
+    for lens in [(3, 2, 4), (2, 2), (1,), (4, 1, 3)]:
+        lengths = np.array(lens)
+        starts = np.append([0], np.cumsum(lengths)[:-1])
+        n, mx = len(lens), max(lens)
+        rs = list(itertools.product(range(-n, n), repeat=2))
+        cs = list(itertools.product(range(-mx - 1, mx + 1), repeat=2))
+        step = 3 if tier == 'quick' else 1
+        for r in rs:
+            for c in cs[::step]:
+                yield cv, ram._convert_from_2d, dict(iis_ragged=(np.array(r), np.array(c)), lengths=lengths.copy(), starts=starts.copy(), error_check=True), ('convert', lens, r, c)
+                yield hn, ram._handle_negative_indices, dict(first_dimension=np.array(r), second_dimension=np.array(c), lengths=lengths.copy(), starts=starts.copy()), ('negatives', lens, r, c)
+        for s in slices(-n, n, (None, 1, 2, 3)):
+            yield sl, ram._slice_to_list, dict(slice_func=s, length=n), ('slice', n, str(s))
+        il, isl = RI.IisFromList(), RI.IisFromSlices(exclude=EXCL | ({'ra-2d-slice-empty-row'} if PROP == 'C06' else set()))
+        row_sels = [list(range(n)), [n - 1], [0, 0], list(range(n))[::-1], [n - 1, 0]]
+        for rows_ in row_sels:
+            for s in list(slices(-mx - 1, mx + 1, (None, 1, 2, 3)))[::(2 if tier == 'quick' else 1)]:
+                yield isl, ram._get_iis_from_slices, dict(first_dimension_iis=list(rows_), second_dimension=s, lengths=lengths.copy()), ('iis-from-slices', lens, rows_, str(s))
+            for cols_ in ([0], [0, 0], [0, mx - 1, 0]):
+                yield il, ram._get_iis_from_list, dict(first_dimension=list(rows_), second_dimension=list(cols_)), ('iis-from-list', rows_, cols_)
+
+
 def cases(L, tier, seed):
+    yield from cases_helpers(L, tier, seed)
     if PROP == 'C05':
         yield from cases_reads(L, tier, seed)
     else:
